@@ -19,7 +19,7 @@ type synGen struct {
 }
 
 var synAccts = []string{"a", "b", "world", "users:001", "a-b_c", "Bank:fees:2024", "x"}
-var synAssets = []string{"USD", "EUR/2", "COIN", "BTC/8", "X"}
+var synAssets = []string{"USD", "EUR/2", "COIN", "BTC/8", "X", "USD/02", "JPY/010", "A/B/1", "/2", "USD/", "1INCH/18", "EUR/USD"}
 var synStrs = []string{"k", "hello world", "^", `q\"uote`, "", "a/b:c", "^^", `say \"hi\"`, `\"`, `tab\there`}
 var synPortions = []string{"1/2", "1 / 3", "2/ 3", "1 /4", "50%", "12.5%", "100%", "0%", "3/4", "99.99%", "1/1", "10/20", "08/10", "007/010", "09%", "0.090%", "1/09"}
 var synTypes = []string{"account", "asset", "number", "monetary", "portion", "string"}
@@ -223,6 +223,9 @@ func cmdSynTrees(args []string) {
 		// ratio parts around 2^63 and 2^64 (19 and 20 digits)
 		{"id": 5, "emptyvars": false, "vars": []any{}, "stmts": []any{
 			J{"k": "call", "name": "set_tx_meta", "args": jl(eStr("k"), J{"k": "portion", "lex": "1/9223372036854775808"})},
+			// the two ends of the platform integer, as number literals
+			J{"k": "call", "name": "set_tx_meta", "args": jl(eStr("k"), J{"k": "num", "lex": "-9223372036854775808"})},
+			J{"k": "call", "name": "set_tx_meta", "args": jl(eStr("k"), J{"k": "num", "lex": "9223372036854775807"})},
 			J{"k": "call", "name": "set_tx_meta", "args": jl(eStr("k"), J{"k": "portion", "lex": "9223372036854775809 / 18446744073709551616"})},
 			J{"k": "call", "name": "set_tx_meta", "args": jl(eStr("k"), J{"k": "portion", "lex": "0009223372036854775807/9999999999999999999"})}}},
 	}
